@@ -9,7 +9,7 @@ From PAFC13 Require Import Model Proofs1 Proofs2 Proofs3 Proofs4 Witness.
 Import ListNotations.
 Open Scope list_scope.
 
-(* PARTIAL (guard): in every guarded history every query -- prior_count, paths, ordered prior
+(* for ANY configuration, also the legacy ones (guard): in every guarded history every query -- prior_count, paths, ordered prior
    ids, instance for a vector, info -- answers exactly what the uncached query answers on the
    current composition, whatever was frozen, cached, queried, copied or rejected before *)
 Theorem C13_coherent_partial : forall cfg pre o q, guarded cfg pre (init cfg) ->
@@ -83,8 +83,8 @@ Proof. exact copy_keeps_originals. Qed.
 Theorem C13_coherent_legacy_refuted_unrepaired_wrapper : ~ coherent_everywhere cfg_pinned.
 Proof. exact refuted_failing_call_unrepaired. Qed.
 
-(* ... and, independently of the wrapper, after a modification below a still-frozen ancestor *)
-Theorem C13_coherent_refuted_stale_ancestor : ~ coherent_everywhere cfg_fixed.
+(* HISTORY (before 29fc8b9): ... and, independently of the wrapper, after a modification below a still-frozen ancestor *)
+Theorem C13_coherent_legacy_refuted_stale_ancestor : ~ coherent_everywhere cfg_fixed.
 Proof. exact refuted_stale_ancestor. Qed.
 
 (* for the repaired wrapper (try/finally) failing calls are inside the guard *)
@@ -111,8 +111,9 @@ Theorem C13_frozen_rejects_setitem : forall cfg st o ob key v,
   step cfg (OSetItem o key v) st = (st, Exn EAssertion).
 Proof. exact frozen_rejects_setitem. Qed.
 
-(* REFUTED: ... but not the members of a TuplePrior below a frozen model *)
-Theorem C13_freeze_protects_all_refuted : ~ freeze_protects_all cfg_fixed.
+(* HISTORY (before b49160e), REFUTED: the members of a TuplePrior below a frozen model were not protected;
+   today: C13_frozen_tuples_reject_at_depth *)
+Theorem C13_freeze_protects_all_legacy_refuted : ~ freeze_protects_all cfg_fixed.
 Proof. exact tuple_unprotected. Qed.
 
 (* FULL: effects of accepted modifications on a Model, of append and of delattr (which no flag stops) *)
@@ -190,11 +191,20 @@ Theorem C13_derive_keeps_flags_legacy_refuted : ~ derive_keeps_flags cfg_repaire
 Proof. exact derive_thaws_flags. Qed.
 
 (* the configuration the theorems are instantiated with by the correspondence is today's code *)
-Theorem C13_current_configuration : wrapper_cleanup = true /\ derive_thaws = false /\ setitem_transfers = false.
+Theorem C13_current_configuration :
+  wrapper_cleanup = true /\ derive_thaws = false /\ setitem_transfers = false /\
+  delattr_guarded = true /\ tuples_frozen = true /\ cache_counts_modifications = true.
 Proof. exact current_is_fixed. Qed.
 
-(* PREPARED for the three proposed repairs of the remaining findings (C13-delattr-guard, C13-tuple-prior-frozen,
-   C13-cache-modification-count; constants delattr_guarded / tuples_frozen / cache_counts_modifications, off today):
+(* HEADLINE, FULL: for the code as it is now (every class table, every prior pool) every query of EVERY history --
+   any interleaving of new / query / freeze / unfreeze / setattr / setitem / append / delattr / copy / prior passing /
+   failing call -- answers exactly what the uncached query answers on the current composition. No guard. *)
+Theorem C13_coherent_full : forall cl pr,
+  coherent_everywhere (mkConfig cl pr wrapper_cleanup derive_thaws setitem_transfers delattr_guarded tuples_frozen
+                                cache_counts_modifications).
+Proof. exact coherent_current. Qed.
+
+(* the general form (6ba0708 delattr guard, b49160e tuple priors, 29fc8b9 modification counter, 5afd9f1 wrapper):
    with all of them the FULL statement holds -- every query of EVERY history answers the uncached query on the
    current composition, no guard left *)
 Theorem C13_coherent_full_when_repaired : forall cfg, all_repaired cfg -> coherent_everywhere cfg.
@@ -220,8 +230,9 @@ Proof. exact frozen_tuples_reject_at_depth. Qed.
 Print Assumptions C13_coherent_partial.
 Print Assumptions C13_history_independent.
 Print Assumptions C13_coherent_legacy_refuted_unrepaired_wrapper.
-Print Assumptions C13_coherent_refuted_stale_ancestor.
+Print Assumptions C13_coherent_legacy_refuted_stale_ancestor.
 Print Assumptions C13_freeze_reaches_descendants.
 Print Assumptions C13_setitem_is_local.
 Print Assumptions C13_derive_is_a_query.
 Print Assumptions C13_coherent_full_when_repaired.
+Print Assumptions C13_coherent_full.
